@@ -172,6 +172,7 @@ class Tower:
     def frobenius(self, level, a, k):
         if self.al != 0:
             raise ExecError("spec", "Frobenius needs Fq atoms")
+        k %= 12          # x -> x^q has order dividing 12 on Fq12 (and on its subfields)
         if level == 0:
             return a
         if level == 1:
